@@ -55,6 +55,7 @@ def rat(n):
     return Rational(v.numerator, v.denominator)
 
 
+ALG_RANGES = {}        # lid of an all_of/any_of/none_of term -> the folded range it runs over
 ENUM_SYMS = set()        # symbols that stand for enumerators: two different ones are known to be unequal
 ENUM_VALUE = {}          # their integer values (for comparisons of an enumerator with an integer)
 
@@ -532,6 +533,12 @@ class Fold:
             cands = [g for g in cands if self.inline(q, g)]
         else:
             cands = [g for g in cands if g.j.get("internal") and (g.file == root.file or g.unit == root.unit)]
+        if len(cands) > 1 and n.get("callee_targs"):
+            # several instantiations of one template: the one named by the call's template arguments
+            ct = re.sub(r"\s+", "", n["callee_targs"])
+            pick = [g for g in cands if re.sub(r"\s+", "", g.j.get("qname_targs") or "").endswith(ct)]
+            if len(pick) == 1:
+                cands = pick
         if len(cands) != 1 or cands[0] in getattr(self, "stack", []) or cands[0] is root:
             return None
         return ("func", cands[0])
@@ -713,6 +720,21 @@ class Fold:
                 return F(short)(a[0])
             if short in ("min", "max") and len(a) == 2:
                 return F(short)(a[0], a[1])
+            if short in ("all_of", "any_of", "none_of") and len(a) == 3 and n["k"] == "call":
+                its = [unwrap(x) for x in n["args"][:2]]
+                ends = [(x.get("callee") or "").split("::")[-1] if x.get("k") in ("mcall", "call") else None for x in its]
+                lam = getattr(self, "lambdas", {}).get(str(a[2]))
+                rng_ok = ends[0] in ("begin", "cbegin") and ends[1] in ("end", "cend")
+                if rng_ok and lam is not None:
+                    lid = "alg%s" % n["id"]
+                    elem = S("elem@%s" % lid)
+                    r = self.eval_lambda(lam, [elem], env)
+                    if r is not None and not isinstance(r, Matrix):
+                        rng = self.ev(its[0]["obj"], env) if its[0].get("obj") is not None else (self.ev(its[0]["args"][0], env) if its[0].get("args") else None)
+                        self.loops = getattr(self, "loops", [])
+                        self.loops.append({"lid": lid, "node": n, "cond": None, "init": {}, "syms": {}, "range": rng, "var": elem, "step": {}, "breaks": [], "algorithm": short})
+                        ALG_RANGES[lid] = rng
+                        return ({"all_of": "allof", "any_of": "anyof", "none_of": "noneof"}[short], lid, r)
             if short == "accumulate" and len(a) in (3, 4) and n["k"] == "call":
                 its = [unwrap(x) for x in n["args"][:2]]
                 ends = [(x.get("callee") or "").split("::")[-1] if x.get("k") == "mcall" else None for x in its]
@@ -949,7 +971,8 @@ class Fold:
                         self.opaque_inits = getattr(self, "opaque_inits", {})
                         self.opaque_inits[d["name"]] = env[d["decl"]]
                     i0 = unwrap(d["init"])
-                    if t_.endswith("&") and i0 is not None and i0.get("k") in ("member", "mcall", "opcall", "subscript", "unop"):
+                    is_view = re.match(r"^(const )?Eigen::(Block|VectorBlock|Ref|Map)<", t_) is not None and i0 is not None and i0.get("k") == "mcall"
+                    if (t_.endswith("&") or is_view) and i0 is not None and i0.get("k") in ("member", "mcall", "opcall", "subscript", "unop"):
                         self.transparent = getattr(self, "transparent", set())
                         self.transparent.add(d["decl"])
                         self.ref_of = getattr(self, "ref_of", {})
